@@ -470,3 +470,11 @@ Theorem C07_sequential_is_spec : forall (E : Type) len sendlen displ (inb out : 
      wrap E (c07_seq_scatterv E sendlen displ inb out) = Some (c07_spec_apply E (idm E) (c07_rt_scatterv 0 [sendlen] [displ]) [inb] [out])).
 Proof. exact P_sequential_is_spec. Qed.
 Print Assumptions C07_sequential_is_spec.
+
+(* OBJECT HISTORY: a receive object that already took one message takes a second one (longer or SHORTER): the result has exactly the
+   second message's length -- nothing of the first message survives beyond it -- and for fully communicated types it IS the second message *)
+Theorem C07_rrecv_reuse : forall (E : Type) (merge : E -> E -> E) (d : E) tsize (s1 s2 data : list E), 0 < tsize ->
+  (exists r1 r2, c07_rrecv E merge d tsize s1 data = Some r1 /\ c07_rrecv E merge d tsize s2 r1 = Some r2 /\ length r2 = length s2) /\
+  (c07_rrecv E (idm E) d tsize s1 data = Some s1 /\ c07_rrecv E (idm E) d tsize s2 s1 = Some s2).
+Proof. exact P_rrecv_reuse. Qed.
+Print Assumptions C07_rrecv_reuse.
